@@ -274,10 +274,18 @@ fn check_case(st: &mut St, n: usize, s: &[u8], sizes: &[usize], with_pending: bo
             add(st, "transport-called-after-error", String::new(), Some(k), Pattern::NONE);
         }
     }
-    // Pending: one suspended leaf at a time; the trace must not change
+    // Pending: one suspended leaf at a time (pairs in the thorough tier); the trace must not change
     if with_pending {
-        for i in 0..leaves {
-            let p = Pattern::one(i, 1);
+        let mut pats: Vec<Pattern> = (0..leaves).map(|i| Pattern::one(i, 1)).collect();
+        if pending_pairs() {
+            for i in 0..leaves {
+                pats.push(Pattern::one(i, 2));
+                for j in i + 1..leaves {
+                    pats.push(Pattern::two(i, 1, j, 1));
+                }
+            }
+        }
+        for p in pats {
             let f = proc_raw(n, s, sizes, None, p, false);
             st.execs += 1;
             st.pending_runs += 1;
@@ -291,6 +299,11 @@ fn check_case(st: &mut St, n: usize, s: &[u8], sizes: &[usize], with_pending: bo
             }
         }
     }
+}
+
+static PENDING_PAIRS: std::sync::atomic::AtomicBool = std::sync::atomic::AtomicBool::new(false);
+fn pending_pairs() -> bool {
+    PENDING_PAIRS.load(std::sync::atomic::Ordering::Relaxed)
 }
 
 fn replay(path: &str) -> ! {
@@ -330,6 +343,7 @@ fn main() {
     }
     let t0 = Instant::now();
     let thorough = args.thorough();
+    PENDING_PAIRS.store(thorough, std::sync::atomic::Ordering::Relaxed);
     let k = args.get_usize("k", if thorough { 4 } else { 3 });
     let ns: Vec<usize> = if thorough { vec![4, 8, 9, 10, 16, 47, 64] } else { vec![8, 16, 64] };
     let cuts = if thorough { 3 } else { 2 };
@@ -388,7 +402,7 @@ fn main() {
                "chunkings": format!("all with <={cuts} cuts (<=2 beyond 16 bytes), regular 1/N/N+1, zero-length reads first and last"),
                "fault_free_traces": t.traces, "fault_positions_executed": t.faults,
                "fault_positions_by_call_kind": {"read": t.fault_kinds[0], "write": t.fault_kinds[1], "flush": t.fault_kinds[2]},
-               "pending_runs": t.pending_runs}),
+               "pending_deviation_bound": if thorough { 2 } else { 1 }, "pending_runs": t.pending_runs}),
     );
     out.cov("skipped_crashing_executions", t.crashed);
     out.cov(
